@@ -195,6 +195,8 @@ def derived_stores(world):
     writers, stores fed by another store's write): not pure sources."""
     out = {n["writes"] for n in world["nodes"] if n.get("writes")}
     out |= {sd["feeds"] for sd in world.get("stores", {}).values() if sd.get("feeds")}
+    # a store written by a stored node and read through a second (source) entry on the same store object
+    out |= {n["store"] for n in world["nodes"] if n.get("store") and n["kind"] != "src"}
     return out
 
 
